@@ -687,10 +687,20 @@ type importerSignal struct {
 }
 
 func (i *importer) importMuxSignal(dbcMuxSig *dbc.Signal, dbcMsgID uint32, muxedSignals []*importerSignal) (*MultiplexerSignal, error) {
+	msgSize := 0
+	if msg, ok := i.messages[MessageID(dbcMsgID)]; ok {
+		msgSize = msg.sizeByte * 8
+	}
+
 	groupSize := 0
 	muxedEndBit := 0
 	for _, tmpMuxedSig := range muxedSignals {
 		tmpEndBit := tmpMuxedSig.sig.GetSize() + i.getSignalStartBit(tmpMuxedSig.dbcSig)
+		// the groups are sized after the multiplexed signals: one that ends beyond
+		// the message must not make them (and their layouts) arbitrarily large
+		if tmpEndBit > msgSize {
+			return nil, i.errorf(tmpMuxedSig.dbcSig, &SignalSizeError{Size: tmpMuxedSig.sig.GetSize(), Err: ErrNoSpaceLeft})
+		}
 		if tmpEndBit > muxedEndBit {
 			muxedEndBit = tmpEndBit
 		}
